@@ -137,7 +137,7 @@ theorem C04_redelivery_idempotent (ds : List (Status × Int × Int × Nat × Eve
         intro st1
         have : Pres (fun x => x.runs = st1.sys.runs ∧ x.outbox = st1.sys.outbox ∧ x.log = st1.sys.log ∧ x.timers = st1.sys.timers)
             (ack (.step s sh tot) i) := by
-          unfold Engine.ack; exact Pres.call (fun _ h => h)
+          exact Pres.ack' (fun _ _ _ h => h) _ _
         exact this env st1 ⟨rfl, rfl, rfl, rfl⟩
       unfold deliver
       split
